@@ -182,7 +182,7 @@ class Script:
         r = self.rng
         k = r.below(9)
         if k == 0:
-            self.peer(4, 0, struct.pack(">HI", 6, r.below(1 << 32)))          # ping request
+            self.peer(4, 0, struct.pack(">HI", 6, r.below(1 << 32)), sep=r.chance(1, 2))          # ping request
         elif k == 1:
             self.peer(4, 0, struct.pack(">HI", 7, r.below(1 << 32)))          # ping response
         elif k == 2:
@@ -198,11 +198,38 @@ class Script:
             self.peer(20, r.choice([0, 1]), command(r.choice(["FCPublish", "releaseStream", "_checkbw", "getStreamLength", ""]),
                                                     r.choice([0, 3]), NULL, [S("x")] if r.chance(1, 2) else []))
         elif k == 6:
-            self.peer(r.choice([2, 6, 7, 22, 0, 255, 16, 19]), r.choice([0, 1]), r.bytes(r.below(8)) + b"\x00\x00\x00\x00\x00")
+            # not flushed at once: the next messages may arrive in the same input call (a handler that returns early would drop them)
+            self.peer(r.choice([2, 6, 7, 22, 0, 255, 16, 19]), r.choice([0, 1]), r.bytes(r.below(8)) + b"\x00\x00\x00\x00\x00", sep=r.chance(1, 3))
         elif k == 7:
             self.peer(4, 0, struct.pack(">HII", 3, 1, 1000))
         else:
             self.peer(17, 0, b"\x00" + command("FCUnpublish", 0, NULL, [S("k")]))
+
+    def burst(self):
+        """several messages of different kinds in ONE input call (where the call boundaries fall must not matter, C15): includes the
+        message types a server rarely receives (Abort, Set Peer Bandwidth, Acknowledgement, unknown types) between ordinary ones"""
+        r = self.rng
+        for _ in range(r.range(3, 7)):
+            k = r.below(8)
+            if k == 0:
+                self.pending += self.w.message(4, 0, r.below(1000), struct.pack(">HI", 6, r.below(1 << 32)))      # ping request
+            elif k == 1:
+                self.pending += self.w.message(r.choice([2, 6]), 0, r.below(1000), struct.pack(">I", r.below(1 << 32)) + b"\x02")
+            elif k == 2:
+                self.pending += self.w.message(3, 0, r.below(1000), struct.pack(">I", r.below(1 << 32)))
+            elif k == 3:
+                self.pending += self.w.message(r.choice([7, 22, 0, 255]), r.choice([0, 1]), r.below(1000), r.bytes(r.below(6)))
+            elif k == 4:
+                self.pending += self.w.message(20, 0, r.below(1000), command("createStream", r.choice([2, 3]), NULL, []))
+                self.streams.append(self.next_stream)
+                self.next_stream += 1
+            elif k == 5 and self.streams:
+                self.pending += self.w.message(r.choice([8, 9]), r.choice(self.streams), r.below(1 << 32), r.bytes(r.below(200)))
+            elif k == 6:
+                self.pending += self.w.message(4, 0, r.below(1000), struct.pack(">HI", 7, r.below(1 << 32)))      # ping response
+            else:
+                self.pending += self.w.message(20, 0, r.below(1000), command(r.choice(["FCPublish", "releaseStream", "_checkbw"]), 0, NULL, [S("x")]))
+        self.flush()
 
     # --- application calls ---------------------------------------------------------------------
     def accept(self, rid=None):
@@ -251,6 +278,8 @@ def gen_script(rng, tier):
             s.reject()
         for _ in range(r.range(0, 2)):
             s.control()
+        if r.chance(1, 3):
+            s.burst()
         if r.chance(1, 6):
             s.second_connect()
         s.create_stream()
@@ -298,7 +327,7 @@ def gen_script(rng, tier):
         for _ in range(r.range(3, 14)):
             k = r.below(14)
             [s.connect, s.create_stream, s.publish, s.play, s.close_or_delete, s.media, s.control, s.accept, s.accept, s.reject,
-             s.app_media, s.media, s.create_stream, lambda: s.connect(malformed=True)][k]()
+             s.app_media, s.burst, s.create_stream, lambda: s.connect(malformed=True)][k]()
     s.flush()
     return "server " + " | ".join(s.ops)
 
